@@ -65,17 +65,8 @@ def coincidences(lines):
     return sum(1 for v in cnt.values() if v >= 2)
 
 
-def run_kernel(ctx, prop, spec, n_quick, n_thorough, oracles=(), nontrivial=None, rule=''):
-    rng = random.Random(f'{prop}-{ctx.seed}')
-    n = n_quick if ctx.quick else n_thorough
-    if ctx.replay:
-        j = json.load(open(ctx.replay))
-        cases = [Case.from_json(j['case'])] if j.get('case') else []
-        for d in j.get('broken_correspondence', []) or []:
-            if d.get('case'):
-                cases.append(Case.from_json(d['case']))
-    else:
-        cases = corpus_cases(prop) + gen_cases(rng, spec, n)
+def _run_cases(cases, oracles, nontrivial):
+    """implementation, model and oracles on a list of cases; returns the partial results of this batch"""
     for i, c in enumerate(cases):
         c.cid = f'{i}'
     impl, runners = {}, {}
@@ -89,8 +80,7 @@ def run_kernel(ctx, prop, spec, n_quick, n_thorough, oracles=(), nontrivial=None
         model.update(split_cases(run_driver('kernel', '\n'.join(c.text() for c in chunk) + '\n')))
     disagreements, oracle_failures = [], []
     hist = collections.Counter()
-    distinct = set()
-    nontriv = 0
+    distinct = {}          # script text -> non-trivial?
     samples = []
     for c in cases:
         a, b = impl[c.cid], model.get(c.cid)
@@ -103,10 +93,8 @@ def run_kernel(ctx, prop, spec, n_quick, n_thorough, oracles=(), nontrivial=None
                     hist['shape:exception not derived from Exception'] += 1
         hist['kind:' + getattr(c, 'kind', 'corpus')] += 1
         txt = c.text().split('\n', 1)[1]
-        nt = (nontrivial or default_nontrivial)(c, a)
-        if nt and txt not in distinct:
-            nontriv += 1
-        distinct.add(txt)
+        nt = bool((nontrivial or default_nontrivial)(c, a))
+        distinct[txt] = distinct.get(txt, False) or nt
         if a != b:
             d = first_diff(a, b)
             disagreements.append({'case': c.to_json(), 'detail': f'line {d[0]}: impl `{d[1]}` model `{d[2]}`' if d else 'length',
@@ -123,14 +111,64 @@ def run_kernel(ctx, prop, spec, n_quick, n_thorough, oracles=(), nontrivial=None
             hist['obs:' + x.split(' ')[0] + (':' + x.split(' ')[2] if x[0] == 'P' else '')] += 1
             if x.startswith('X '):
                 hist['raise:' + x.split(' ')[1]] += 1
+    import hashlib
+    return {'n': len(cases), 'disagreements': disagreements[:20], 'n_dis': len(disagreements), 'oracle_failures': oracle_failures[:20],
+            'hist': hist, 'distinct': {hashlib.sha1(t.encode()).hexdigest(): v for t, v in distinct.items()}, 'samples': samples,
+            'lines': sum(len(v) for v in impl.values())}
+
+
+_JOB = {}
+
+
+def _shard(k):
+    """one worker of the thorough tier: its own PRNG stream, its own driver processes (forked: inherits _JOB)"""
+    j = _JOB
+    rng = random.Random(f'{j["prop"]}-{j["seed"]}-shard{k}')
+    return _run_cases(gen_cases(rng, j['spec'], j['per_shard']), j['oracles'], j['nontrivial'])
+
+
+THOROUGH_SHARDS = 12          # worker processes of the thorough tier (the sandbox has 16 cores)
+THOROUGH_FACTOR = 12          # the thorough tier runs this many times the nominal number of cases, spread over the shards
+
+
+def run_kernel(ctx, prop, spec, n_quick, n_thorough, oracles=(), nontrivial=None, rule=''):
+    rng = random.Random(f'{prop}-{ctx.seed}')
+    if ctx.replay:
+        j = json.load(open(ctx.replay))
+        cases = [Case.from_json(j['case'])] if j.get('case') else []
+        for d in j.get('broken_correspondence', []) or []:
+            if d.get('case'):
+                cases.append(Case.from_json(d['case']))
+        parts = [_run_cases(cases, oracles, nontrivial)]
+    elif ctx.quick:
+        parts = [_run_cases(corpus_cases(prop) + gen_cases(rng, spec, n_quick), oracles, nontrivial)]
+    else:
+        # thorough: the corpus and the quick stream in this process, then THOROUGH_FACTOR x n_thorough fresh cases on worker processes
+        parts = [_run_cases(corpus_cases(prop) + gen_cases(rng, spec, n_quick), oracles, nontrivial)]
+        import multiprocessing
+        _JOB.update(prop=prop, seed=ctx.seed, spec=spec, oracles=oracles, nontrivial=nontrivial,
+                    per_shard=max(1, THOROUGH_FACTOR * n_thorough // THOROUGH_SHARDS))
+        with multiprocessing.get_context('fork').Pool(THOROUGH_SHARDS) as pool:
+            parts += pool.map(_shard, range(THOROUGH_SHARDS))
+    disagreements = [d for p in parts for d in p['disagreements']]
+    oracle_failures = [f for p in parts for f in p['oracle_failures']]
+    hist = collections.Counter()
+    distinct = {}
+    for p in parts:
+        hist.update(p['hist'])
+        for t, v in p['distinct'].items():
+            distinct[t] = distinct.get(t, False) or v
+    n = sum(p['n'] for p in parts)
+    ndis = sum(p['n_dis'] for p in parts)
     cov = {
-        'evaluations': len(cases),
-        'distinct_nontrivial': nontriv,
+        'evaluations': n,
+        'distinct_nontrivial': sum(1 for v in distinct.values() if v),
         'rule': rule or 'seeded random script programs; non-trivial = distinct script text with at least one instant at which two or more observations coincide',
-        'samples': samples,
-        'traces_validated_against_impl': len(cases) - len(disagreements),
-        'observation_lines_compared': sum(len(v) for v in impl.values()),
+        'samples': parts[0]['samples'],
+        'traces_validated_against_impl': n - ndis,
+        'observation_lines_compared': sum(p['lines'] for p in parts),
         'operation_histogram': dict(sorted(hist.items())),
+        'worker_processes': len(parts) - 1,
     }
     return {'coverage': cov, 'disagreements': disagreements, 'oracle_failures': oracle_failures}
 
